@@ -759,6 +759,17 @@ impl Scenario for Flow {
                     }
                     let em = Emitted { call, pdu: &pdu, ptype, label: lab, fid, exts: &exts, ctx: None, before: &before, after: &buf, res: &res };
                     let (v6, parsed) = mon::check_c06(&em);
+                    // bytes written behind a well-formed packet concern C06 alone: reported there, and the packet goes on
+                    // through every other oracle as the well-formed packet it is
+                    let v6 = match v6 {
+                        Some(v) if v.clause == "C06.wrote_beyond_reported_length" => {
+                            if ex.report(v) {
+                                stop!();
+                            }
+                            None
+                        }
+                        other => other,
+                    };
                     if let Some(prev) = &prev {
                         ex.st.inc(mon::c18_cell(call, prev, &res, parsed.as_ref(), sub_possible));
                         if let Some(v) = mon::check_c18(call, prev, &res, parsed.as_ref(), sub_possible, ptype, buf_len, len) {
@@ -1075,6 +1086,17 @@ impl Scenario for Flow {
                     let f = &flights[fi];
                     let em = Emitted { call: Call::EncapFrag, pdu: &f.pdu, ptype: f.ptype, label: Lab::ReUse, fid: f.fid, exts: &[], ctx: Some(ctx), before: &before, after: &buf, res: &res };
                     let (v6, parsed) = mon::check_c06(&em);
+                    // bytes written behind a well-formed packet concern C06 alone: reported there, and the packet goes on
+                    // through every other oracle as the well-formed packet it is
+                    let v6 = match v6 {
+                        Some(v) if v.clause == "C06.wrote_beyond_reported_length" => {
+                            if ex.report(v) {
+                                stop!();
+                            }
+                            None
+                        }
+                        other => other,
+                    };
                     ex.st.inc(mon::c18_cell(Call::EncapFrag, &prev, &res, parsed.as_ref(), false));
                     if let Some(v) = mon::check_c18(Call::EncapFrag, &prev, &res, parsed.as_ref(), false, f.ptype, buf_len, f.pdu.len()) {
                         if ex.report(v) {
